@@ -99,4 +99,17 @@ META = {
         "level_note": "trusted: window-locality of the harness computations; whole-run oracle; emission recorder in the harness plugin's iter()",
         "technique": "differential runtime oracle (chunked vs whole-run) over exhaustive small chunkings + emission-alignment monitor",
     },
+    "C10": {
+        "level_text": (
+            "For random stored layouts (original and rechunked on-disk chunking, overlapping rows, three time "
+            "units incl. binary-exact fractions of a second) every time range with endpoints on, just inside and "
+            "just outside every row and chunk boundary is requested through the real get_array in both "
+            "time-selection modes, plus selection strings/callables, keep/drop column sets, seconds_range and "
+            "time_within, for one and two same-kind targets and both processors; each answer is compared with "
+            "the unrestricted result filtered by an independent numpy predicate; ranges outside the run must "
+            "raise, ranges without rows must be empty, and the storage listing must not change."
+        ),
+        "level_note": "trusted: the unrestricted get_array result as reference (C01/C03 decide it); independent predicate in vf/checks/c10.py",
+        "technique": "runtime oracle: real partial requests vs reference filter over exhaustive boundary-endpoint ranges; storage-listing monitor",
+    },
 }
